@@ -12,7 +12,9 @@ VARIABLES c, ph, res
 \* the shared catalogue plus line strings that are NOT monotone in time (legal: only first time <= last time is required):
 \* interior vertices before the first and after the last vertex, and a contour that returns to its start time
 Cat == Catalogue(FMAXT) \o <<G("LineString", <<<<3, 1>>, <<1, 2>>, <<6, 3>>, <<4, 4>>>>),
-                             G("LineString", <<<<2, 0>>, <<5, 2>>, <<0, 4>>, <<2, 1>>>>)>>
+                             G("LineString", <<<<2, 0>>, <<5, 2>>, <<0, 4>>, <<2, 1>>>>),
+                             \* a self-crossing outline (bow-tie: legal for the data model): its extents are those of ALL its vertices
+                             G("Polygon", <<<<<<0, 0>>, <<4, 4>>, <<4, 0>>, <<0, 4>>, <<0, 0>>>>>>)>>
 Intervals == {<<a, b>> : a \in 0..N, b \in 0..N} \cap {i \in (0..N) \X (0..N) : i[1] <= i[2]}
 AbsOpts == {<<>>} \cup {<<k>> : k \in -1..3}
 RelOpts == {<<>>} \cup {<<<<p, 4>>>> : p \in -1..5}
